@@ -6,6 +6,7 @@ From Muduo Require Import Base_Bytes Gen_C09 C09_Model.
 Extraction "model.ml" C09_Model.ep_step C09_Model.ep_step_current C09_Model.pp_step C09_Model.pp_step_current
   C09_Model.ep_init C09_Model.pp_init C09_Model.ep_full C09_Model.callbacks C09_Model.dispatch
   C09_Model.handle_event C09_Model.handle_runs C09_Model.ep_loop_iter C09_Model.pp_loop_iter_current
+  C09_Model.ep_loop_iter_full C09_Model.pp_loop_iter_full_current
   C09_Model.callbacks_g
   Gen_C09.PollPoller_remove_resets_index Gen_C09.EPollPoller_add_skips_empty_interest
   Gen_C09.PollPoller_new_entry_negates_empty
